@@ -285,6 +285,85 @@ func cliStage(r *mon.Run, ps map[string]*party) {
 		r.Violate(v.key, v.what, v.replay)
 	}
 	cliMulti(r, ps, age, work)
+	cliNearTag(r, ps, age, work)
+}
+
+// cliNearTag: a file whose only stanza of the key's type carries a longer
+// string starting with the tag must not make the tool ask for the passphrase.
+func cliNearTag(r *mon.Run, ps map[string]*party, age, work string) {
+	vs := tagVariants("unused")
+	type ncase struct {
+		key, pub string
+		of       *party
+		variant  string
+		withReal bool
+	}
+	cases := []ncase{
+		{"enc_ed1", "", ps["enc_ed1"], "plus-1-A", false},
+		{"enc_rsa1", "", ps["enc_rsa1"], "canonical-tag-plus-2-bytes", false},
+		{"enc_rsa_pem", "enc_rsa_pem.pub", ps["rsa2"], "canonical-tag-plus-4-bytes", false},
+		{"enc_ed1", "", ps["enc_ed1"], "canonical-tag-plus-1-bytes", true},
+	}
+	for i, c := range cases {
+		dir := filepath.Join(work, fmt.Sprintf("neartag%02d", i))
+		os.MkdirAll(dir, 0o755)
+		os.WriteFile(filepath.Join(dir, "KEY"), keys.Data(c.key), 0o600)
+		if c.pub != "" {
+			os.WriteFile(filepath.Join(dir, "KEY.pub"), keys.Data(c.pub), 0o644)
+		}
+		v := pickVariant(vs, c.variant)
+		to := []*party{ps["X1"], variantParty(c.of, v, false)}
+		want := pred{0, clsNoMatch}
+		if c.withReal {
+			to = append(to, c.of)
+			want = pred{1, clsPlain}
+		}
+		f := buildFile("cli-neartag-"+c.key, c.variant, c.of, c.of, to...)
+		os.WriteFile(filepath.Join(dir, "in.age"), f.file, 0o600)
+		res := cli.Run(&cli.Cmd{Argv: []string{age, "-d", "-i", "KEY", "-o", "out", "in.age"}, Dir: dir, TTY: true, Timeout: 60 * time.Second,
+			Script: []cli.TTYStep{{Expect: "Enter passphrase", Send: keys.Passphrase + "\n"}}})
+		r.Eval(1)
+		r.Count("cli_near_tag_runs", 1)
+		name := fmt.Sprintf("KEY=%s file to %v (first argument %q, real tag %q)", c.key, f.stanzaNames(), f.stanzas[1].Args[0], c.of.tag())
+		r.Distinct("cli-neartag|" + name)
+		if res.Err != nil {
+			r.Inconclusive("CLI stage: driver failure on %s: %v", name, res.Err)
+			continue
+		}
+		prompts := bytes.Count(res.TTYOut, []byte("Enter passphrase"))
+		out, oerr := os.ReadFile(filepath.Join(dir, "out"))
+		gotClass := clsError
+		switch {
+		case res.Exit == 0 && oerr == nil && bytes.Equal(out, f.pt):
+			gotClass = clsPlain
+		case res.Exit == 0:
+			gotClass = "exit-0-without-the-plaintext"
+		case strings.Contains(string(res.Stderr)+string(res.TTYOut), "no identity matched"):
+			gotClass = clsNoMatch
+		}
+		r.Tab("cli_near_tag_outcome", fmtPred(prompts, gotClass))
+		key := ""
+		switch {
+		case res.Exit != 0 && oerr == nil:
+			key = "output-left-after-failure"
+		case prompts != want.prompts:
+			key = fmt.Sprintf("prompts=%d->%d", want.prompts, prompts)
+		case gotClass != want.class:
+			key = fmt.Sprintf("outcome=%s->%s", want.class, gotClass)
+		}
+		if key == "" {
+			r.Count("cli_near_tag_runs_in_agreement_with_model", 1)
+			continue
+		}
+		place := "alone"
+		if c.withReal {
+			place = "before-match"
+		}
+		r.Violate("cli-near-tag:"+v.class+":"+place+":"+key,
+			fmt.Sprintf("age -d -i KEY -o out in.age with %s: expected %s, observed %s, exit %d; stderr %q", name, fmtPred(want.prompts, want.class), fmtPred(prompts, gotClass), res.Exit, mon.Trunc(res.Stderr, 300)),
+			map[string]any{"stage": "cli, near-tag stanza", "key_file": c.key, "stanza_recipients": f.stanzaNames(), "near_tag_argument": f.stanzas[1].Args[0], "real_tag": c.of.tag(),
+				"file_base64": base64.StdEncoding.EncodeToString(f.file), "terminal": string(mon.Trunc(res.TTYOut, 400)), "exit": res.Exit})
+	}
 }
 
 // cliMulti: several -i identities in one run. The tool hands them to one
